@@ -10,6 +10,7 @@ import (
 	"strconv"
 	"strings"
 	"sync"
+	"sync/atomic"
 	"time"
 
 	"golang.org/x/tools/go/ssa"
@@ -84,9 +85,10 @@ func seq(lo, hi int64) []int64 {
 func ints(v ...int64) []int64 { return v }
 
 type taskRun struct {
-	spec TaskSpec
-	args []int64
-	res  *TaskResult
+	spec    TaskSpec
+	args    []int64
+	res     *TaskResult
+	skipped bool
 }
 
 func cmdMain(cmd string, args []string) {
@@ -246,6 +248,9 @@ func runCheck(prop, tier, only string, verbose bool) int {
 		}
 	}
 	for _, r := range runs {
+		if r.skipped {
+			continue
+		}
 		if len(r.res.Reached) == 0 && r.res.EndKinds["ok"] == 0 && len(r.res.Violations) == 0 && len(r.res.Inconclusive) == 0 {
 			missing = append(missing, fmt.Sprintf("%s%v: no feasible path reached the end", r.res.Harness, r.res.Args))
 		}
@@ -395,13 +400,23 @@ func runTasks(prog *ssa.Program, pkg *ssa.Package, runs []*taskRun, openKnown ma
 	per := total / conc
 	sem := make(chan struct{}, conc)
 	var wg sync.WaitGroup
+	var stopFlag int32
+	var broken int32
 	for _, r := range runs {
 		wg.Add(1)
 		sem <- struct{}{}
 		go func(r *taskRun) {
 			defer wg.Done()
 			defer func() { <-sem }()
+			if atomic.LoadInt32(&stopFlag) != 0 {
+				// enough tasks have already shown new violations: the verdict is fixed, skip the rest
+				r.res = &TaskResult{Harness: r.spec.Harness, Args: r.args, EndKinds: map[string]int64{"skipped": 1}, Reached: map[string]int64{}, Funcs: map[string]int64{}}
+				r.skipped = true
+				return
+			}
 			cfg := defaultConfig()
+			cfg.Asserts = r.spec.Asserts
+			cfg.StopFlag = &stopFlag
 			cfg.Harness = r.spec.Harness
 			cfg.Args = r.args
 			cfg.KnownOpen = openKnown
@@ -420,6 +435,14 @@ func runTasks(prog *ssa.Program, pkg *ssa.Package, runs []*taskRun, openKnown ma
 			}
 			cfg.Verbose = false
 			r.res = RunTask(prog, pkg, cfg)
+			for _, v := range r.res.Violations {
+				if v.Known == "" && (v.Kind != "assert" || len(r.spec.Asserts) == 0 || hasPrefixAny(v.ID, r.spec.Asserts)) {
+					if atomic.AddInt32(&broken, 1) >= 12 {
+						atomic.StoreInt32(&stopFlag, 1)
+					}
+					break
+				}
+			}
 			if verbose {
 				fmt.Fprintln(os.Stderr, "done:", r.res.Summary())
 			}
